@@ -14,6 +14,8 @@ Shapes_cli_tree_object == {"annotationsStr", "celAnnotBad", "celAnnotNonBool", "
 Shapes_cli_validate_condmap == {"badLine2", "empty", "emptyLeft", "emptyRight", "noArrow", "onlySpaces", "twoLines", "valid"}
 Shapes_cli_validate_manifest == {"celConditionBad", "celPathNonBool", "duplicatePhases", "emptyFile", "noPhases", "noScopes", "notYAML", "probeNoSelector", "wrongKind"}
 Shapes_objectset_status == {"absent", "condIntValues", "condNoReason", "condNoStatus", "condNoType", "condNotAMap", "condNull", "condOGString", "condsNotAList", "curIntValues", "curNoMessage", "curNoReason", "curNoStatus", "curNoType", "nestedDeep", "notAMap", "ogFloat", "ogString", "wellFormed"}
+Shapes_objectset_stored_conditions == {"allMapped", "mappedFirst", "mappedLast", "mappedMiddle", "none", "onlyMapped", "twoAdjacent", "twoApart"}
+Shapes_deployment_stored_conditions == {"allMapped", "mappedFirst", "mappedLast", "mappedMiddle", "none", "onlyMapped", "twoAdjacent", "twoApart"}
 Shapes_oci_import == {"absolutePath", "badSecondHeader", "dotdot", "duplicate", "emptyLayer", "garbage", "outsideDir", "streamError", "truncated", "valid"}
 Shapes_render_condmap == {"badLine2", "empty", "emptyLeft", "emptyRight", "noArrow", "onlySpaces", "twoLines", "valid"}
 Shapes_render_include == {"finiteDepth", "mutualRecursion", "recurseAfterLeaf", "recurseTwice", "selfRecursion"}
@@ -32,6 +34,8 @@ Rows == { <<"cli-tree-condmap", s>> : s \in Shapes_cli_tree_condmap } \cup
         { <<"cli-validate-manifest", s>> : s \in Shapes_cli_validate_manifest } \cup
         { <<"objectset-status", s>> : s \in Shapes_objectset_status } \cup
         { <<"oci-import", s>> : s \in Shapes_oci_import } \cup
+        { <<"objectset-stored-conditions", s>> : s \in Shapes_objectset_stored_conditions } \cup
+        { <<"deployment-stored-conditions", s>> : s \in Shapes_deployment_stored_conditions } \cup
         { <<"render-include", s>> : s \in Shapes_render_include } \cup
         { <<"template-include", s>> : s \in Shapes_template_include } \cup
         { <<"template-source-patch", s>> : s \in Shapes_template_source_patch } \cup
